@@ -411,7 +411,7 @@ theorem t_forEndOp (k : Heights) : Triple (Inv (pushFor k)) forEndOp (fun _ => I
       refine ⟨⟨hb.block, hb.names⟩, g1, ?_, ?_, g4⟩
       · simp [g2]
       · rw [he] at g3; simpa using g3
-    obtain ⟨u, s', hr, hI'⟩ := ka_addLine (.label e) k _ hI
+    obtain ⟨u, s', hr, hI'⟩ := ka_addLine (.clabel e) k _ hI
     refine ⟨u, s', ?_, hI'⟩
     simp only [bind, Tr.get, he, forEndTail, Tr.modify]
     exact hr
@@ -422,7 +422,7 @@ theorem t_brkOp (k : Heights) (hk : loopOK k) : Keeps (Inv k) brkOp := by
   cases he : s.endLabels with
   | nil => rw [he] at hl; simp at hl; unfold loopOK at hk; omega
   | cons e rest =>
-    obtain ⟨u, s', hr, hI'⟩ := ka_addLine (.goto e) k s h
+    obtain ⟨u, s', hr, hI'⟩ := ka_addLine (.cgoto e) k s h
     refine ⟨u, s', ?_, hI'⟩
     simp only [brkOp, bind, Tr.get, he, brkTail]
     exact hr
